@@ -910,6 +910,18 @@ impl Word {
     //     SegPos { syll_index: seg_pos.syll_index, seg_index: s_i }
     // }
 
+    /// Length of the (possibly long) segment that the copy at `seg_pos` is part of
+    /// # Panics
+    /// If SegPos is out of bounds
+    pub(crate) fn seg_length_around(&self, seg_pos: SegPos) -> usize {
+        let syll = &self.syllables[seg_pos.syll_index];
+        let mut start = seg_pos.seg_index;
+        while start > 0 && syll.segments[start - 1] == syll.segments[seg_pos.seg_index] {
+            start -= 1;
+        }
+        syll.get_seg_length_at(start)
+    }
+
     /// Number of segments at or after `seg_pos`
     pub(crate) fn seg_count_from(&self, seg_pos: SegPos) -> usize {
         self.syllables.iter().enumerate().skip(seg_pos.syll_index).map(|(i, s)| {
